@@ -33,7 +33,7 @@ def enumerate_states(tier):
         # visibility is independent of the other options: exporting mocks must not widen the trait
         progs.append(dict(mode="fn", req=req, itemvis="pub", opts="export"))
         progs.append(dict(mode="fn", req=req, itemvis="", opts="export_mock"))
-    for req in ["", "pub", "pub(crate)", "pub(in crate::KEY)", "pub(self)", "pub(super)", "pub(in super::super)"]:
+    for req in ["", "pub", "pub(crate)", "pub(in crate::KEY)", "pub(self)", "pub(super)", "pub(in super::super)", "pub(in self)", "pub(in super)"]:
         for modvis in ["", "pub"]:
             for fnvis in ["pub", "pub(crate)"]:
                 progs.append(dict(mode="mod", req=req, itemvis=modvis, fnvis=fnvis))
